@@ -70,4 +70,105 @@ theorem builds_agree {V : Type} (S : Efp.Theory.RuleSys Nat V) (rk : Nat → Nat
 
 example : (["a", "b", "a"] : List String).Perm ["a", "a", "b"] := by decide
 
+/-! ## identifiers
+
+Rebuilding the same model gives every object a fresh random id and therefore every value a new
+name (`attr-in-<id>`).  `renamed S f g` is the rule system of the rebuilt model: the node that was
+called `n` is now called `f n` (`g` is the inverse of `f`), it reads the renamed nodes and its rule
+is the same function of what it reads. -/
+
+def renamed {V : Type} (S : Efp.Theory.RuleSys Nat V) (f g : Nat → Nat) (hgf : ∀ n, g (f n) = n) :
+    Efp.Theory.RuleSys Nat V where
+  isCalc n := S.isCalc (g n)
+  reads n := (S.reads (g n)).map f
+  rule n σ := S.rule (g n) (fun m => σ (f m))
+  rule_local := by
+    intro n σ σ' h
+    apply S.rule_local
+    intro m hm
+    exact h (f m) (List.mem_map.mpr ⟨m, hm, rfl⟩)
+
+/-- the renamed copy of a consistent state is consistent for the renamed rules -/
+theorem renamed_consistent {V : Type} (S : Efp.Theory.RuleSys Nat V) (f g : Nat → Nat)
+    (hgf : ∀ n, g (f n) = n) (σ : Nat → V) (h : Efp.Theory.Consistent S σ) :
+    Efp.Theory.Consistent (renamed S f g hgf) (fun n => σ (g n)) := by
+  intro n hn
+  show σ (g n) = S.rule (g n) (fun m => σ (g (f m)))
+  rw [h (g n) hn]
+  apply S.rule_local
+  intro m _
+  rw [hgf m]
+
+/-- **results do not depend on the identifiers**: whatever consistent state the rebuilt model is
+in, the value now called `f n` is the value that was called `n`, as soon as the two models have the
+same inputs — for every rule system whose reads are well-founded and every renaming `f` -/
+theorem identifiers_irrelevant {V : Type} (S : Efp.Theory.RuleSys Nat V) (rk : Nat → Nat)
+    (wf : ∀ n, S.isCalc n = true → ∀ m ∈ S.reads n, rk m < rk n)
+    (f g : Nat → Nat) (hgf : ∀ n, g (f n) = n) (hfg : ∀ n, f (g n) = n)
+    (σ σ' : Nat → V) (h : Efp.Theory.Consistent S σ)
+    (h' : Efp.Theory.Consistent (renamed S f g hgf) σ')
+    (hin : ∀ n, S.isCalc n = false → σ' (f n) = σ n) :
+    ∀ n, σ' (f n) = σ n := by
+  have wf' : ∀ n, (renamed S f g hgf).isCalc n = true →
+      ∀ m ∈ (renamed S f g hgf).reads n, rk (g m) < rk (g n) := by
+    intro n hn m hm
+    obtain ⟨m0, hm0, rfl⟩ := List.mem_map.mp hm
+    rw [hgf m0]
+    exact wf (g n) hn m0 hm0
+  have key := Efp.Theory.consistent_unique (renamed S f g hgf) (fun n => rk (g n)) wf' σ'
+    (fun n => σ (g n)) h' (renamed_consistent S f g hgf σ h) (by
+      intro n hn
+      have := hin (g n) hn
+      rw [hfg n] at this
+      exact this)
+  intro n
+  rw [key (f n), hgf n]
+
+/-- … in particular for the two builds themselves: a full pass over the rebuilt model, in any order
+that respects its reads and from any starting values, ends with the original's numbers under the
+new names -/
+theorem rebuilt_model_has_the_same_numbers {V : Type} (S : Efp.Theory.RuleSys Nat V) (rk : Nat → Nat)
+    (wf : ∀ n, S.isCalc n = true → ∀ m ∈ S.reads n, rk m < rk n)
+    (f g : Nat → Nat) (hgf : ∀ n, g (f n) = n) (hfg : ∀ n, f (g n) = n)
+    (order order' : List Nat) (σ σ' : Nat → V)
+    (hnd : order.Nodup) (hnd' : order'.Nodup)
+    (hall : ∀ n, S.isCalc n = true → n ∈ order)
+    (hall' : ∀ n, (renamed S f g hgf).isCalc n = true → n ∈ order')
+    (honly : ∀ n ∈ order, S.isCalc n = true)
+    (honly' : ∀ n ∈ order', (renamed S f g hgf).isCalc n = true)
+    (hord : ∀ l₁ n l₂, order = l₁ ++ n :: l₂ → ∀ m ∈ S.reads n, m ∉ l₂ ∧ m ≠ n)
+    (hord' : ∀ l₁ n l₂, order' = l₁ ++ n :: l₂ → ∀ m ∈ (renamed S f g hgf).reads n, m ∉ l₂ ∧ m ≠ n)
+    (hin : ∀ n, S.isCalc n = false → σ' (f n) = σ n) :
+    ∀ n, Efp.Theory.run (renamed S f g hgf) σ' order' (f n) = Efp.Theory.run S σ order n := by
+  have c := Efp.Theory.full_pass_consistent S order σ hnd hall hord
+  have c' := Efp.Theory.full_pass_consistent (renamed S f g hgf) order' σ' hnd' hall' hord'
+  apply identifiers_irrelevant S rk wf f g hgf hfg _ _ c c'
+  intro n hn
+  have h1 : n ∉ order := fun h => by rw [honly n h] at hn; cases hn
+  have h2 : f n ∉ order' := fun h => by
+    have := honly' (f n) h
+    change S.isCalc (g (f n)) = true at this
+    rw [hgf n, hn] at this; cases this
+  rw [Efp.Theory.run_not_mem S order σ n h1, Efp.Theory.run_not_mem _ order' σ' (f n) h2]
+  exact hin n hn
+
+/-- non-vacuity: a two-node system (node 1 doubles node 0) renamed by swapping 0 ↔ 5 -/
+def demoSys : Efp.Theory.RuleSys Nat Nat where
+  isCalc n := n == 1
+  reads n := if n == 1 then [0] else []
+  rule n σ := if n == 1 then 2 * σ 0 else 0
+  rule_local := by
+    intro n σ σ' h
+    by_cases hn : n = 1
+    · subst hn; simp at h ⊢; exact h
+    · have : (n == 1) = false := by simpa using hn
+      simp [this]
+
+def swap05 (n : Nat) : Nat := if n = 0 then 5 else if n = 5 then 0 else n
+theorem swap05_invol (n : Nat) : swap05 (swap05 n) = n := by
+  unfold swap05; split <;> (try split) <;> (try split) <;> omega
+
+example : Efp.Theory.run (renamed demoSys swap05 swap05 swap05_invol) (fun n => if n = 5 then 21 else 0) [1] 1 = 42 := by
+  decide
+
 end Efp.Props.C19
